@@ -182,6 +182,7 @@ func (l *logger) Error(msg string, ctx ...interface{}) {
 
 func (l *logger) Crit(msg string, ctx ...interface{}) {
 	l.write(msg, LvlCrit, ctx, skipLevel)
+	simCrit(msg, ctx)
 	os.Exit(1)
 }
 
